@@ -7,3 +7,6 @@ import SynKitProofs.Props.C04
 #print axioms SynKit.ReactorInv.own_template_backward_partial
 #print axioms SynKit.ReactorInv.subPattern_of_subPatternOf
 #print axioms SynKit.ReactorInv.id_mem_allMonos_subPatternOf
+#print axioms SynKit.ReactorLink.glue_own_template_partial
+#print axioms SynKit.ReactorInv.C04.glueRebuilds_concrete_partial
+#print axioms SynKit.ReactorInv.C04.own_template_regenerates_concrete_partial
